@@ -1,10 +1,13 @@
 package main
 
 import (
+	"encoding/json"
 	"fmt"
 	"math/big"
+	"reflect"
 	"sort"
 	"strconv"
+	"time"
 
 	"verifharness/docs"
 	"verifharness/gen"
@@ -59,6 +62,8 @@ func seqArray(n int) []interface{} {
 	}
 	return a
 }
+
+type namedBool bool
 
 func c08(r *mon.Run) {
 	r.Rule = "exhaustive: every (n, start, stop, step) with n in 0..N and start/stop/step in {absent} ∪ [-n-3, n+3], in several syntactic positions and on typed Go slices; " +
@@ -379,5 +384,48 @@ func c08(r *mon.Run) {
 				t.Nontrivial("pn:" + strconv.Itoa(i))
 			}
 		}}
-	r.Exec(main, nonArr, two, zero, pn)
+	// Go values that are not slices (what a struct field, a typed map or a hand-built document may hold): slicing
+	// them yields null like slicing any other non-array, and never panics
+	type gs struct{ A int }
+	gi, gstr := 7, docs.Str("named")
+	goVals := []struct {
+		name string
+		v    interface{}
+	}{{"int", int(5)}, {"int64", int64(-3)}, {"uint8", uint8(9)}, {"float32", float32(1.5)}, {"complex128", complex(1, 1)}, {"named bool", namedBool(true)}, {"time.Duration", time.Duration(5)}, {"[3]int array", [3]int{1, 2, 3}},
+		{"named string", gstr}, {"struct", gs{1}}, {"*struct", &gs{2}}, {"map[string]int", map[string]int{"a": 1}}, {"*int", &gi}, {"json.Number", json.Number("12")}, {"func", func() {}}, {"chan", make(chan int)}, {"nil *struct", (*gs)(nil)}, {"[]int (a real slice: sliced)", []int{1, 2, 3}}}
+	gsl := [][3]string{{"", "1", ""}, {"0", "", ""}, {"", "", "-1"}, {"1", "3", "2"}, {"", "", ""}, {"-1", "", ""}}
+	gow := mon.Workload{Name: "go-values-that-are-not-slices", N: len(goVals) * len(gsl) * 4,
+		Do: func(i int, t *mon.Tally) {
+			gv := goVals[i/4/len(gsl)]
+			s := gsl[i/4%len(gsl)]
+			st := gen.StSliceS(s[0], s[1], s[2])
+			var doc interface{}
+			var tree *gen.Expr
+			switch i % 4 {
+			case 0:
+				doc, tree = gv.v, gen.Chain(nil, st)
+			case 1:
+				doc, tree = map[string]interface{}{"x": gv.v}, gen.Chain(gen.Field("x"), st)
+			case 2:
+				doc, tree = map[string]interface{}{"xs": []interface{}{gv.v, []interface{}{float64(1), float64(2)}}}, gen.Chain(gen.Field("xs"), gen.StListStar(), st)
+			default:
+				doc, tree = map[string]interface{}{"xs": []interface{}{gv.v}}, gen.Func("map", gen.ExpRef(gen.Chain(nil, st)), gen.Field("xs"))
+			}
+			expr := gen.SpellTight(tree)
+			t.Eval()
+			isSlice := reflect.ValueOf(gv.v).Kind() == reflect.Slice
+			for k, o := range []mon.Observed{apiSearch(expr, doc), apiCompiledSearch(expr, doc)} {
+				bad := o.Panicked
+				if !bad && !isSlice && i%4 < 2 && (o.Err != nil || o.V != nil) {
+					bad = true // a non-array: null
+				}
+				if bad {
+					r.Violate(&mon.Violation{Workload: "go-values-that-are-not-slices", Index: i, API: []string{"Search", "Compile+Search"}[k], Expr: expr, DocDesc: "the sliced value is a Go " + gv.name,
+						Expected: "null (slicing a non-array), no panic", Observed: o.String(), Detail: o.Stack, Class: "go-values-that-are-not-slices"})
+					return
+				}
+			}
+			t.Nontrivial("go:" + strconv.Itoa(i))
+		}}
+	r.Exec(main, nonArr, two, zero, pn, gow)
 }
